@@ -631,6 +631,26 @@ def correspondence(ctx: Ctx):
         report(ctx, cases[i], reported)
     if errs and not bad:
         ctx.violation("correspondence C19_x could not be evaluated", {"broken": "C19_x", "errors": errs}, found_input=False)
+    known_witnesses(ctx)
+
+
+def known_witnesses(ctx: Ctx):
+    """KF-C19-crossing-edges (C19_n_edges_crossing_refuted on the real code), replayed on every run."""
+    hit = []
+    for backend in ("duckdb", "sqlite"):
+        reproduced, details = crossing_edges_witness(backend)
+        ctx.cov["evaluations"] += 1
+        if reproduced:
+            hit.append(backend)
+            ctx.violation("compute_graph_metrics: n_edges = SUM(node_degree)/2 counts an edge leaving the cluster as one half "
+                          f"(clusters {{0,1}},{{2,3}}, edges 0-1, 1-2, 2-3: n_edges 1.5, density 1.5; {backend})",
+                          {"case": {"records": [0, 1, 2, 3], "clusters": {"0": [0, 1], "2": [2, 3]},
+                                    "predictions": [[0, 1, 0.9], [1, 2, 0.9], [2, 3, 0.9]], "threshold": 0.5},
+                           "implementation": details["clusters_table"],
+                           "specification": {"edges_inside_each_cluster": details["edges_inside_each_cluster"]}},
+                          {"kind": "crossing_edges_n_edges", "backend": backend})
+    if not hit:
+        ctx.expect_known("KF-C19-crossing-edges", False, "n_edges now equals the number of edges inside each cluster on the witness")
 
 
 def replay(ctx: Ctx):
